@@ -6,6 +6,7 @@ import (
 	"fmt"
 	"io"
 	"net/url"
+	"sort"
 	"strings"
 
 	"github.com/gobwas/httphead"
@@ -23,7 +24,7 @@ var RespFields = []Field{
 	{"connection", []string{"canon", "absent", "lower", "upper", "padded", "case", "wrong", "dup-same", "dup-conflict", "list"}},
 	{"accept", []string{"canon", "absent", "lower", "upper", "padded", "otherkey", "27", "29", "case", "dup-same", "dup-conflict", "lastchar", "firstchar"}},
 	{"protocol", []string{"absent", "a", "b", "c", "empty"}},
-	{"extensions", []string{"absent", "x", "x;p=1", "z", "malformed", "x, z", "x, y", "two-headers"}},
+	{"extensions", []string{"absent", "x", "x;p=1", "z", "malformed", "x, z", "x, y", "two-headers", "x;p=1;r=22, y"}},
 	{"extra", []string{"none", "before", "between", "after"}},
 	{"order", []string{"canonical", "reversed", "rotated"}},
 	{"lineend", []string{"CRLF", "LF"}},
@@ -376,6 +377,21 @@ type DialResult struct {
 	Sent     []byte
 	Drained  []byte
 	DrainErr error
+	// ConfigMutated is non-empty when Upgrade changed the dialer's own configuration
+	ConfigMutated string
+}
+
+// cfgDigest renders the parts of a dialer configuration that are shared by every copy of the
+// Dialer value (slices).
+func cfgDigest(d ws.Dialer) string {
+	var b strings.Builder
+	fmt.Fprintf(&b, "protocols=%q ext=", d.Protocols)
+	for _, o := range d.Extensions {
+		fmt.Fprintf(&b, "%q{", o.Name)
+		o.Parameters.ForEach(func(k, v []byte) bool { fmt.Fprintf(&b, "%q=%q;", k, v); return true })
+		b.WriteString("}")
+	}
+	return b.String()
 }
 
 func RunDialer(d ws.Dialer, c DialCfg, r Resp, u *url.URL, policy func(max, off int) int) DialResult {
@@ -387,7 +403,11 @@ func RunDialer(d ws.Dialer, c DialCfg, r Resp, u *url.URL, policy func(max, off 
 		return data
 	}
 	res.Conn = conn
+	before := cfgDigest(d)
 	res.Br, res.Hs, res.Err = d.Upgrade(conn, u)
+	if after := cfgDigest(d); after != before {
+		res.ConfigMutated = fmt.Sprintf("before %s after %s", before, after)
+	}
 	res.Req = append([]byte{}, conn.Req.Bytes()...)
 	if res.Err == nil {
 		var rd io.Reader = conn
@@ -402,6 +422,9 @@ func RunDialer(d ws.Dialer, c DialCfg, r Resp, u *url.URL, policy func(max, off 
 // JudgeClient checks one client handshake outcome.
 func JudgeClient(r Resp, c DialCfg, res DialResult) (sig, detail string) {
 	v := r.Judge(c)
+	if res.ConfigMutated != "" {
+		return "dialer-configuration-mutated-by-Upgrade", res.ConfigMutated
+	}
 	if res.Err == nil {
 		if v.MustReject {
 			return "accepts-bad-response:" + strings.Join(v.Reasons, "+"), fmt.Sprintf("response must be refused (%v) but Upgrade returned nil\nresponse: %q", v.Reasons, head(res.Sent))
@@ -417,9 +440,20 @@ func JudgeClient(r Resp, c DialCfg, res DialResult) (sig, detail string) {
 			if strings.Join(names, ",") != strings.Join(v.ExtNames, ",") {
 				return "extensions-returned", fmt.Sprintf("returned %v server sent %v", names, v.ExtNames)
 			}
-			if r.V("extensions") == "x;p=1" {
-				if val, ok := res.Hs.Extensions[0].Parameters.Get("p"); !ok || string(val) != "1" {
-					return "extension-parameters-returned", fmt.Sprintf("%v", res.Hs.Extensions)
+			// parameters: exactly those the server sent for each extension
+			wantParams := map[string][]string{
+				"x": {"x{}"}, "x;p=1": {"x{p=1;}"}, "x, y": {"x{}", "y{}"}, "two-headers": {"x{}", "y{q=2;}"}, "x;p=1;r=22, y": {"x{p=1;r=22;}", "y{}"},
+			}
+			if wp, ok := wantParams[r.V("extensions")]; ok {
+				var got []string
+				for _, o := range res.Hs.Extensions {
+					var ps []string
+					o.Parameters.ForEach(func(k, v []byte) bool { ps = append(ps, string(k)+"="+string(v)+";"); return true })
+					sort.Strings(ps)
+					got = append(got, string(o.Name)+"{"+strings.Join(ps, "")+"}")
+				}
+				if strings.Join(got, ",") != strings.Join(wp, ",") {
+					return "extension-parameters-returned", fmt.Sprintf("returned %v, server sent %v", got, wp)
 				}
 			}
 		}
